@@ -104,46 +104,90 @@ func init() {
 				ev["err"] = "no hello sent"
 				return
 			}
-			ev["raw"] = hlib.Ints(raw)
-			p := tls.UnmarshalClientHello(raw)
-			if p == nil {
-				ev["err"] = "UnmarshalClientHello returned nil"
-				return
+			chBundle(ev, raw)
+		})
+		for _, e := range res {
+			out.Emit(e)
+		}
+		return nil
+	})
+}
+
+// chBundle sends one ClientHello (handshake message bytes) through every conversion of the ClientHello view and
+// logs the results into ev.
+func chBundle(ev map[string]any, raw []byte) {
+	ev["raw"] = hlib.Ints(raw)
+	p := tls.UnmarshalClientHello(raw)
+	if p == nil {
+		ev["err"] = "UnmarshalClientHello returned nil"
+		return
+	}
+	m, err := p.Marshal()
+	if err != nil {
+		ev["err"] = "Marshal: " + err.Error()
+		return
+	}
+	ev["m"] = hlib.Ints(m)
+	a, b, ok := tls.VerifClientHelloPrivRoundTrip(raw)
+	if !ok {
+		ev["err"] = "private unmarshal failed"
+		return
+	}
+	ev["privA"], ev["privB"] = privJ(a), privJ(b)
+	ev["pub"] = pubJ(p)
+	ev["pub2"] = pubJ(tls.VerifClientHelloPubRoundTrip(p))
+	p.Raw = nil
+	m2, err := p.Marshal()
+	if err != nil {
+		ev["err"] = "Marshal after clearing Raw: " + err.Error()
+		return
+	}
+	ev["m2"] = hlib.Ints(m2)
+	p3 := tls.UnmarshalClientHello(m2)
+	if p3 == nil {
+		ev["err"] = "re-marshaled hello does not parse"
+		return
+	}
+	ev["pub3"] = pubJ(p3)
+	p3.Raw = nil
+	m3, err := p3.Marshal()
+	if err != nil {
+		ev["err"] = "second Marshal: " + err.Error()
+		return
+	}
+	ev["m3"] = hlib.Ints(m3)
+}
+
+func newCHEvent(id string) map[string]any {
+	empty := map[string]any{}
+	return map[string]any{"ev": "CH", "id": id, "raw": []int{}, "m": []int{}, "privA": empty, "privB": empty, "pub": empty, "pub2": empty,
+		"m2": []int{}, "pub3": empty, "m3": []int{}, "err": ""}
+}
+
+// pubhelloraw: {"scns":[{"f": {...}, "raw": [bytes]}]} -> the same bundle as pubhello for ClientHellos whose bytes were
+// built by the TLA+ reference encoder (PubViews_MC: presence combinations of the optional members); f is passed through.
+func init() {
+	hlib.Register("pubhelloraw", func(in []byte, out *hlib.Out) error {
+		var req struct {
+			Scns []struct {
+				F   map[string]any `json:"f"`
+				Raw []int          `json:"raw"`
 			}
-			m, err := p.Marshal()
-			if err != nil {
-				ev["err"] = "Marshal: " + err.Error()
-				return
-			}
-			ev["m"] = hlib.Ints(m)
-			a, b, ok := tls.VerifClientHelloPrivRoundTrip(raw)
-			if !ok {
-				ev["err"] = "private unmarshal failed"
-				return
-			}
-			ev["privA"], ev["privB"] = privJ(a), privJ(b)
-			ev["pub"] = pubJ(p)
-			ev["pub2"] = pubJ(tls.VerifClientHelloPubRoundTrip(p))
-			p.Raw = nil
-			m2, err := p.Marshal()
-			if err != nil {
-				ev["err"] = "Marshal after clearing Raw: " + err.Error()
-				return
-			}
-			ev["m2"] = hlib.Ints(m2)
-			p3 := tls.UnmarshalClientHello(m2)
-			if p3 == nil {
-				ev["err"] = "re-marshaled hello does not parse"
-				return
-			}
-			ev["pub3"] = pubJ(p3)
-			p3.Raw = nil
-			m3, err := p3.Marshal()
-			if err != nil {
-				ev["err"] = "second Marshal: " + err.Error()
-				return
-			}
-			ev["m3"] = hlib.Ints(m3)
+		}
+		if err := json.Unmarshal(in, &req); err != nil {
+			return err
+		}
+		res := make([]map[string]any, len(req.Scns))
+		hlib.Parallel(len(req.Scns), func(i int) {
+			ev := newCHEvent("tlc-grid")
+			ev["f"] = req.Scns[i].F
+			res[i] = ev
+			defer func() {
+				if p := recover(); p != nil {
+					ev["err"] = fmt.Sprint("panic: ", p)
+				}
+			}()
+			chBundle(ev, hlib.Unints(req.Scns[i].Raw))
 		})
 		for _, e := range res {
 			out.Emit(e)
